@@ -493,8 +493,14 @@ fn gen_prog(rng: &mut TestRng, i: usize, which: Which) -> ChainProg {
                 _ => tuple,
             };
             let body = if kind.is_async && hk != "map" { format!("async move {{ {} }}", val) } else { val };
-            handler = Some((hk.to_string(), format!("{{ let __hr = &__hl; move |{}| {} }}", params.join(", "), body)));
-            branches[0].locals.push("let __hl = inp::<Vec<i64>>(77);".to_string());
+            if rb(rng, 0.35) {
+                // a handler that is only `FnOnce`: it gives away a value it owns (handlers are called once)
+                let body1 = body.replace("__hr.len()", "__own.len()");
+                handler = Some((hk.to_string(), format!("{{ let __hv = inp::<Vec<i64>>(77); move |{}| {{ let __own = __hv; {} }} }}", params.join(", "), body1)));
+            } else {
+                handler = Some((hk.to_string(), format!("{{ let __hr = &__hl; move |{}| {} }}", params.join(", "), body)));
+                branches[0].locals.push("let __hl = inp::<Vec<i64>>(77);".to_string());
+            }
         }
     }
     // C19: the non-spawning async macros with a (pass-through) custom joiner must not add a Send bound either
@@ -707,6 +713,8 @@ fn control_text(p: &ChainProg, idx: usize) -> Option<String> {
             q.options = String::new();
             let mut t = replace_word(&mac_fn(&q, idx, "ctl"), "Ns", "Sy");
             t = t.replace("let __hr = &__hl;", "let __hr = __hl.clone();");
+            // (a handler that is only FnOnce: its control clones the value it owns, which makes it `Fn`)
+            t = t.replace("let __own = __hv;", "let __own = __hv.clone();");
             for b in 0..q.branches.len() {
                 t = t.replace(&format!("__r{}.iter() |> rd(", b), &format!("__loc{}.clone().into_iter() |> rdo(", b));
                 t = t.replace(&format!("__m{}.iter_mut() |> inc_mut(", b), &format!("__locm{}.clone().into_iter() |> inco(", b));
@@ -1136,7 +1144,7 @@ pub fn run(id: &str, tier: &str, seed: u64) -> i32 {
             *ev.classes.entry("raw identifier as `let` name".into()).or_default() += 1;
         }
         if let Some((k, t)) = &p.handler {
-            *ev.classes.entry(format!("handler {}{}", k, if t.contains("&__hl") { " borrowing a local of the caller" } else if t.contains("((nm") { " mentioning locals of the caller that are spelled like the `let` names" } else { "" })).or_default() += 1;
+            *ev.classes.entry(format!("handler {}{}", k, if t.contains("&__hl") { " borrowing a local of the caller" } else if t.contains("__own") { " that is only FnOnce (gives away a value it owns)" } else if t.contains("((nm") { " mentioning locals of the caller that are spelled like the `let` names" } else { "" })).or_default() += 1;
         }
         *ev.classes.entry(format!("family {}", match p.fam { Family::Sync => "sync", Family::AsyncClosed => "async: sync chain closed with -> ready", Family::AsyncReal => "async: real futures / streams" })).or_default() += 1;
         for (place, inner, depth) in &p.nestings {
